@@ -130,6 +130,17 @@ def snapshot(roots):
             for k in ('__wrapped__', '__signature__', 'func', '_sigtools__forger'):
                 if k in d:
                     rec(d[k], path + '.' + k, depth + 1)
+                else:
+                    # values kept in __slots__ (modifiers objects store __signature__ and func there); descriptors that
+                    # compute something (as_forged) are not slots and are left alone
+                    for klass in type(o).__mro__:
+                        slot = klass.__dict__.get(k)
+                        if type(slot).__name__ == 'member_descriptor':
+                            try:
+                                rec(slot.__get__(o, type(o)), path + '.' + k, depth + 1)
+                            except AttributeError:
+                                pass
+                            break
         for attr in ('__func__', '__self__'):
             try:
                 v = object.__getattribute__(o, attr)
